@@ -334,7 +334,7 @@ class DeltaGraph:
         for size in sorted(self.graph_dict, reverse=True):
             for node in list(self.graph_dict[size]):
                 # For all indexes in deltas of that node
-                for index in (list(zip(*node))[1]):
+                for index in [delta[1] for delta in node]:
                     # Check if it's full of same index
                     if node in self.graph_dict[size] and \
                             self.is_full(node, size, index):
